@@ -1,13 +1,12 @@
 SPECIFICATION Spec
 CONSTANTS
   Formats <- AllFormats
-  LengthDecls <- DeepDecls
-  FixedWidths <- DeepWidths
-  MaxCell = 6
+  LengthDecls <- Decls
+  FixedWidths <- Widths
+  MaxCell = 2
   StripBeforeEmptyGuard = TRUE
   BlankCellSkipsCharGuard = TRUE
-  StripsBlanksOnly = TRUE
+  StripsBlanksOnly = FALSE
 INVARIANT TypeOK
 INVARIANT GuardsHold
-INVARIANT Emit
 CHECK_DEADLOCK FALSE
